@@ -448,3 +448,7 @@ mod tests {
         assert!(output.is_err());
     }
 }
+
+#[cfg(all(test, pendulum_project_ntpd_rs_verif))]
+#[path = "/verif/harness/ntp-proto/hook_keyset.rs"]
+mod verif_hook;
